@@ -32,8 +32,12 @@ class _Base(Component):
         INSTANCES.append(self)
         if spec.get("fails"):
             raise ValueError("constructor failure requested by the case")
+        if self.idx % 3 == 0:
+            super().__init__()      # a subclass may call the base initializer first, last, or not at all
         for alias, ty, kw in spec.get("children", []):
             self.add_component(alias, ty, **kw)
+        if self.idx % 3 == 1:
+            super().__init__()      # (cooperative mix-ins register their children and then hand on)
 
     def _publish(self, names: list[str]) -> None:
         # alternately a resource and a resource factory: the naming rule is the same for both
